@@ -39,3 +39,11 @@ Lemma stateless_write_path :
   no_static skel_uncompressedFile2CompressedFile = true /\ no_static skel_readWriteQueue2UncompressedFile = true /\
   no_static skel_close = true /\ no_static skel_write = true.
 Proof. vm_compute. repeat split; reflexivity. Qed.
+
+(* open(): the two thread creations are the last statements of their branch, and nothing follows the branches *)
+Lemma open_spawns_last : nothing_after_spawn skel_open = true /\ spawns skel_open = 4%nat.
+Proof. vm_compute. split; reflexivity. Qed.
+
+(* the parser step drops consumed data on the unknown-type path too *)
+Lemma parser_drops_on_every_path : w1_every_path_drops skel_uncompressedFile2ReadWriteQueue = true.
+Proof. vm_compute. reflexivity. Qed.
